@@ -13,7 +13,8 @@ Case layout (nested ints / bytes / lists / None):
   rcfg   = [[ [id, always_max_size] ...], timeout_ms, lifetime_ms, retry_servfail, cache_kind,
             use_search_by_default, [search name...], domain name, ndots | None]
   resolution = [qname, rdtype, rdclass, tcp, raise_on_no_answer, lifetime_ms | None,
-                search | None, advance_ms]
+                search | None, advance_ms, preload]   (preload=1: not a resolve() call - the user stores
+                Answer(qname, rdtype, rdclass, <next scripted reply>) with resolver.cache.put)
   outcome = [duration_ms, reply]
   reply   = exception class index (int)  |  [qr, rcode, nquestions, [rr...], [rr...]]
   rr      = [owner | None (= question name), rdclass, rdtype, ttl, data]
@@ -165,9 +166,19 @@ def build_message(request, idx, reply):
     return r
 
 
+class Runaway(BaseException):
+    """the resolver keeps issuing queries far beyond what its lifetime allows (BaseException so that
+    the resolver's own `except Exception` cannot swallow it)"""
+
+
+MAX_QUERIES = 6000
+
+
 def scripted_exchange(env, ident, request, timeout, tcp, raise_on_truncation=True):
     """one query against the scripted world; shared by every transport"""
     idx = env.pos
+    if idx > MAX_QUERIES:
+        raise Runaway()
     dur, reply = env.script[idx] if idx < len(env.script) else env.tail
     env.pos += 1
     tms = timeout * 1000
@@ -355,6 +366,25 @@ def get_loop():
     return _loop
 
 
+def cache_probes(res, qname, rdtype, rdclass, srch):
+    """cache.get for (candidate, rdtype, rdclass) and (candidate, ANY, rdclass), per candidate name"""
+    if res.cache is None:
+        return []
+    try:
+        cands = res._get_qnames_to_try(mkname(qname), None if srch is None else bool(srch))
+    except Exception:  # noqa: BLE001
+        cands = []
+    pr = []
+    for cn in cands:
+        for key in ((cn, rdtype, rdclass), (cn, ANY, rdclass)):
+            try:
+                v = res.cache.get((key[0], dns.rdatatype.RdataType.make(key[1]), dns.rdataclass.RdataClass.make(key[2])))
+            except Exception:  # noqa: BLE001
+                v = None
+            pr.append(None if v is None else getattr(v.response, "_c16_idx", -1))
+    return pr
+
+
 def run_case(case, flavour):
     """flavour: 'sync' | 'async'.  Server kinds: 0 = address string (real Do53Nameserver over scripted
     dns.query.udp/tcp), 1 = https URL (real DoHNameserver over scripted dns.query.https),
@@ -433,10 +463,30 @@ def run_case(case, flavour):
         backend = BackendSleep(clock)
         out = []
         probes = []
-        for qname, rdtype, rdclass, tcp, raise_na, lifetime, srch, advance in resolutions:
+        for qname, rdtype, rdclass, tcp, raise_na, lifetime, srch, advance, pre in resolutions:
             clock.ms += advance
             env.trace = []
             env.pending_backoff = 0
+            if pre:
+                idx = env.pos
+                dur, reply = env.script[idx] if idx < len(env.script) else env.tail
+                env.pos += 1
+                stored = Err(71, "not stored")
+                if not isinstance(reply, int):
+                    try:
+                        qn = mkname(qname)
+                        ty = dns.rdatatype.RdataType.make(rdtype)
+                        cl = dns.rdataclass.RdataClass.make(rdclass)
+                        rq = dns.message.make_query(qn, ty, cl)
+                        ans = dns.resolver.Answer(qn, ty, cl, build_message(rq, idx, reply))
+                        if res.cache is not None:
+                            res.cache.put((qn, ty, cl), ans)
+                        stored = Err(70, "stored")
+                    except dns.exception.DNSException:
+                        pass
+                out.append([[], stored, clock.ms])
+                probes.append(cache_probes(res, qname, rdtype, rdclass, srch))
+                continue
             kwargs = dict(
                 tcp=bool(tcp),
                 raise_on_no_answer=bool(raise_na),
@@ -468,23 +518,7 @@ def run_case(case, flavour):
             if result is not None and result.nameserver is not None and by_port.get(ans_to_str.get(result.nameserver)) != result.port:
                 tr.note(7)
             out.append([env.trace, final_obs(result, exc, by_ans, by_str), clock.ms])
-            # cache probes for this resolution's candidate names
-            if res.cache is not None:
-                try:
-                    cands = res._get_qnames_to_try(mkname(qname), None if srch is None else bool(srch))
-                except Exception:  # noqa: BLE001
-                    cands = []
-                pr = []
-                for cn in cands:
-                    for key in ((cn, rdtype, rdclass), (cn, ANY, rdclass)):
-                        try:
-                            v = res.cache.get((key[0], dns.rdatatype.RdataType.make(key[1]), dns.rdataclass.RdataClass.make(key[2])))
-                        except Exception:  # noqa: BLE001
-                            v = None
-                        pr.append(None if v is None else getattr(v.response, "_c16_idx", -1))
-                probes.append(pr)
-            else:
-                probes.append([])
+            probes.append(cache_probes(res, qname, rdtype, rdclass, srch))
         return [out, probes, sorted(tr.anomalies)]
     finally:
         (dns.resolver.time, dns.asyncresolver.time, dns.query.udp, dns.query.tcp, dns.query.https,
@@ -601,8 +635,13 @@ def impl(ccase):
     """observation = [sync] when the asyncio resolver behaves identically, else [sync, async]"""
     case = expand(ccase)
     table = ccase[0]
-    s = compress_result(table, run_case(case, "sync"))
-    a = compress_result(table, run_case(case, "async"))
+    try:
+        s = compress_result(table, run_case(case, "sync"))
+        a = compress_result(table, run_case(case, "async"))
+    except Runaway:
+        global _loop
+        _loop = None  # the interrupted coroutine leaves the private event loop unusable
+        return Err(-3, "runaway")
     from lib import normalize
     return [s] if normalize(s) == normalize(a) else [s, a]
 
@@ -773,7 +812,7 @@ def gen_request(rng, first):
     lifetime = None if rng.random() < 0.8 else rng.choice([200, 1000, 4000, 20000])
     search = rng.choice([None, None, 0, 1, 1])
     advance = 0 if first else rng.choice([0, 0, 10, 1000, 5001, 61000, 400000])
-    return [qn, rdtype, rdclass, 1 if rng.random() < 0.2 else 0, 1 if rng.random() < 0.7 else 0, lifetime, search, advance]
+    return [qn, rdtype, rdclass, 1 if rng.random() < 0.2 else 0, 1 if rng.random() < 0.7 else 0, lifetime, search, advance, 0]
 
 
 PROFILES = {
@@ -865,7 +904,7 @@ EXH_SETTINGS = [
 def exh_cases(depth, settings):
     for servers, rsf, tcp, search, cache, raise_na in settings:
         rcfg = [servers, 1000, 2500, rsf, cache, 0, search, ROOT, None]
-        req = [nm("host"), A, 1, tcp, raise_na, None, 1, 0]
+        req = [nm("host"), A, 1, tcp, raise_na, None, 1, 0, 0]
         for n in range(depth + 1):
             for seq in itertools.product(EXH_KINDS, repeat=n):
                 script = [[50, exh_reply(k)] for k in seq]
@@ -879,7 +918,7 @@ def gen_long_soft(rng):
     lifetime = rng.choice([8000, 12000, 20000, 30000])
     rcfg = [servers, rng.choice([2000, 500, 5000]), lifetime, 1, rng.choice([0, 1]), 0,
             rng.sample(SUFFIXES, rng.choice([0, 1, 2])), ROOT, None]
-    req = [rng.choice(QNAMES_REL[:3]), A, 1, rng.randrange(2), 1, None, rng.choice([0, 1]), 0]
+    req = [rng.choice(QNAMES_REL[:3]), A, 1, rng.randrange(2), 1, None, rng.choice([0, 1]), 0, 0]
     cands = py_candidates(rcfg, req[0], bool(req[6]))
     kinds = ["servfail", "servfail", "other", "timeout", "trunc"]
     script = []
@@ -936,6 +975,17 @@ def gen_cache_case(rng):
                     rr[3] = rng.choice([0, 1, 5, 60, 300])
         script.append([rng.choice([0, 1, 10, 100]), rep])
     tail = [rng.choice([0, 10]), gen_reply(rng, rng.choice(["answer", "nx", "timeout", "nodata"]), base[1], base[2], cands)]
+    if rng.random() < 0.35 and cands:
+        # the user stores an Answer under a key of his choosing first
+        pq = rng.choice(cands)
+        pty = rng.choice([ANY, ANY, base[1], base[1], TXT])
+        pk = rng.choice(["nodata", "nx", "answer", "nx", "cname"])
+        rep = gen_reply(rng, pk, A if pty == ANY else pty, base[2], cands)
+        if not isinstance(rep, int):
+            for rr in rep[3] + rep[4]:
+                rr[3] = rng.choice([5, 60, 300, 86400])
+        reqs = [[pq, pty, base[2], 0, 0, None, None, 0, 1]] + reqs
+        script = [[0, rep]] + script
     return [rcfg, reqs, script, tail]
 
 
@@ -1103,7 +1153,10 @@ def oracle(ctx, kind, ccase, out):
         fails.append({"kind": "C16:" + (sig or what), "sig": sig or what, "what": what, **kw})
 
     if isinstance(out, Err):
-        fail("implementation raised outside the resolver: " + out.text, sig="harness-error")
+        if out.code in (-2, -3):
+            fail(f"resolution does not terminate within its lifetime (more than {MAX_QUERIES} queries / watchdog)", sig="no-termination")
+        else:
+            fail("implementation raised outside the resolver: " + out.text, sig="harness-error")
         return fails
     table = ccase[0]
     case = expand(ccase)
@@ -1124,6 +1177,7 @@ def check_flavour(fail0, case, res, flavour):
     for an in anomalies:
         fail0('nameserver transport misuse: ' + ANOM.get(an, str(an)), sig='transport-%s' % an, flavour=flavour)
     clock = 0
+    pos = 0
     # cache as the property describes it: key -> (script idx, expiry, kind)
     known = {}
 
@@ -1131,10 +1185,23 @@ def check_flavour(fail0, case, res, flavour):
         fail0(what, sig=sig, flavour=flavour, request=ri, **kw)
 
     for ri, (req, (trace, fin, end_clock)) in enumerate(zip(reqs, outs)):
-        qname, qtype, qclass, tcp, raise_na, lifetime, srch, advance = req
+        qname, qtype, qclass, tcp, raise_na, lifetime, srch, advance, pre = req
         lifetime = lifetime_cfg if lifetime is None else lifetime
         clock += advance
         start = clock
+        if pre:
+            # the user's cache.put: remember what the cache now holds under that key
+            idx = pos
+            pos += 1
+            dur, reply = script[idx] if idx < len(script) else tail
+            if cache_kind and not isinstance(reply, int):
+                ch = ref_chain(reply, qname, qtype, qclass)
+                if ch[0] == "ok":
+                    known[(tuple(lower(x) for x in qname), qtype, qclass)] = (
+                        idx, clock + 1000 * ch[3], "nx" if reply[1] == NXDOMAIN else "ans", ch)
+            check_probes(fail, cache_kind, probes, ri, py_candidates(rcfg, qname, None if srch is None else bool(srch)), qtype, qclass, known, clock)
+            continue
+        pos += len(trace)
         if isinstance(fin, Err):
             cands0 = py_candidates(rcfg, qname, None if srch is None else bool(srch))
             if fin.code == 2 and not all(name_fits(c) for c in cands0):
@@ -1282,17 +1349,22 @@ def check_flavour(fail0, case, res, flavour):
             if last is not None and last[0] in ("answer", "nodata", "yxdomain"):
                 fail("LifetimeTimeout raised after an acceptable reply", sig="first-acceptable")
         # ---- cached under the queried name, type and class
-        if cache_kind and ri < len(probes):
-            pr = probes[ri]
-            for ci, c in enumerate(cands):
-                if 2 * ci + 1 >= len(pr):
-                    break
-                for slot, ty in ((0, qtype), (1, ANY)):
-                    ck = known.get((tuple(lower(x) for x in c), ty, qclass))
-                    exp = ck[0] if ck and ck[1] > clock else None
-                    if pr[2 * ci + slot] != exp:
-                        fail("cache content differs from the replies received for (name, type, class)", sig="cache-key", name=c, rdtype=ty, expected=exp, got=pr[2 * ci + slot])
+        check_probes(fail, cache_kind, probes, ri, cands, qtype, qclass, known, clock)
     return None
+
+
+def check_probes(fail, cache_kind, probes, ri, cands, qtype, qclass, known, clock):
+    if not (cache_kind and ri < len(probes)):
+        return
+    pr = probes[ri]
+    for ci, c in enumerate(cands):
+        if 2 * ci + 1 >= len(pr):
+            break
+        for slot, ty in ((0, qtype), (1, ANY)):
+            ck = known.get((tuple(lower(x) for x in c), ty, qclass))
+            exp = ck[0] if ck and ck[1] > clock else None
+            if pr[2 * ci + slot] != exp:
+                fail("cache content differs from the replies received for (name, type, class)", sig="cache-key", name=c, rdtype=ty, expected=exp, got=pr[2 * ci + slot])
 
 
 def check_answer(fail, fin, qn, qtype, qclass, ch, now, server):
@@ -1428,3 +1500,46 @@ def extra(ctx):
         fails.append({"kind": "C16:nameserver", "sig": "nameserver-ports", "what": "resolver.port / nameserver_ports do not reach the transport", "seen": sorted(set(seen))})
     ctx.notes["extra_evaluations"] = len(facts) + 2
     return fails
+
+
+def widen(ctx, disagreements):
+    """the proofs or the correspondence broke but the oracle found nothing among the cases of this run:
+    search more widely (other seeds, the neighbourhood of the disagreeing cases) for a concrete input
+    on which the implementation violates the property text"""
+    import random
+
+    from lib import normalize, safe_impl
+    import sys
+
+    mod = sys.modules[__name__]
+    found = []
+
+    def try_case(kind, ccase):
+        ccase = normalize(ccase)
+        out = normalize(safe_impl(mod, ccase))
+        for f in oracle(ctx, kind, ccase, out) or []:
+            f.setdefault("case_kind", kind)
+            f.setdefault("case", ccase)
+            found.append(f)
+        return bool(found)
+
+    # neighbourhood: the disagreeing cases with every prefix of their script
+    for d in disagreements[:20]:
+        case = expand(d["case"])
+        for n in range(len(case[2]) + 1):
+            c2 = [case[0], case[1], case[2][:n], case[3]]
+            if try_case("widened-prefix", intern(c2)) and len(found) >= 3:
+                return found
+    for extra_seed in range(1, 7):
+        rng = random.Random(ctx.seed * 7919 + extra_seed)
+        for i in range(1500):
+            p = ["mixed", "soft", "hard", "search", "chain", "cache", "long-soft"][i % 7]
+            if p == "cache":
+                c = gen_cache_case(rng)
+            elif p == "long-soft":
+                c = gen_long_soft(rng)
+            else:
+                c = gen_case(rng, p)
+            if try_case("widened-" + p, intern(c)) and len(found) >= 3:
+                return found
+    return found
